@@ -533,6 +533,9 @@ pub proof fn lemma_tok_push(ts: Seq<Token>, t: Token)
     }
     if ts.len() > 0 { assert(t2[0] == ts[0]); }
 }
+// (the second conjunct of leaves_ok mentions s[i + 1] under the trigger s[i]: the solver unrolls it a few steps; this lemma sat at
+// 95-105% of the default resource limit, i.e. it was one harmless change away from a spurious failure - given room)
+#[verifier::rlimit(150)]
 pub proof fn lemma_tok_done(ts: Seq<Token>)
     requires tok_inv(ts), !operand_due(ts),
     ensures leaves_ok(ts), starts_operand(ts, 0),
